@@ -3,7 +3,8 @@ C11 — driver of the SyncList model for the `oracle` executable.
 
 Case format:
   header  `@ C11 list <ninit> T <call>… T <call>…`   (one `T` group per thread;
-           calls: `u<int>` = Push(int), `o` = Pop(), `l` = Len(); the list initially holds
+           calls: `u<int>` = Push(int), `o` = Pop(), `l` = Len(), `w` = PopWait(-1) (blocking:
+           Pop in a Gosched loop), `z` = PopWait(0) (one Pop); the list initially holds
            the values 1..ninit, pushed sequentially)
   op      `step <tid>`   thread <tid> performs its next ATOMIC access (followed by the
                           plain accesses up to its next atomic access);
@@ -45,6 +46,8 @@ def Ret.show : Ret → String
 def parseCall (t : String) : Option Call :=
   if t = "o" then some .pop
   else if t = "l" then some .len
+  else if t = "w" then some (.popWait true)
+  else if t = "z" then some (.popWait false)
   else if t.startsWith "u" then (t.drop 1).toString.toInt?.map Call.push
   else none
 
